@@ -41,7 +41,7 @@ INFO = {
 EXPECTED_PROBES = ("fault_enoent", "fault_eacces", "fault_truncate", "fault_replace", "fault_empty", "exec_origin",
                    "folded_recursion", "raise_on_last_line", "raise_on_first_lines", "multiline_statement",
                    "markup_in_source", "bad_markup_in_source", "markup_in_message", "debug_verbosity", "ignored_frames",
-                   "simple_mode", "second_render_other_ignore", "real_stdlib_file")
+                   "simple_mode", "second_render_other_ignore", "real_stdlib_file", "exec_registered_with_linecache")
 
 _frame_mod = None
 
@@ -52,7 +52,7 @@ def setup():
     _frame_mod = fm
 
 
-FAULTS = [None, "exec", "enoent", "eacces", "truncate_before", "truncate_inside", "truncate_after", "replace", "empty"]
+FAULTS = [None, "exec", "exec_linecache", "enoent", "eacces", "truncate_before", "truncate_inside", "truncate_after", "replace", "empty"]
 
 
 def gen(S, tier):
@@ -243,6 +243,9 @@ def execute(sc):
             _frame_mod.open = old_open
         store.cleanup()
         clear_known_caches()
+        import linecache
+        for k in [k for k in linecache.cache if k.startswith("<generated dsim-")]:
+            del linecache.cache[k]
     res.events = log.events
     for k, v in store.fault_hits.items():
         res.fault("source_" + k, v)
@@ -338,6 +341,21 @@ def _run(sc, res, log, store, r):
             caught = e
         fail_path = "<string>"
         mods = {}
+    elif fault == "exec_linecache":
+        # generated code that has no file, but whose lines the interpreter knows: registered with
+        # linecache the way attrs, doctest and IPython do it
+        import linecache
+        res.probe("exec_registered_with_linecache")
+        fail_path = "<generated dsim-%s>" % sc["src_seed"]
+        text_ = src.text()
+        linecache.cache[fail_path] = (len(text_), None, text_.splitlines(True), fail_path)
+        g = {"__name__": "generated"}
+        try:
+            exec(compile(text_, fail_path, "exec"), g)
+            g["f0"](exc)
+        except BaseException as e:
+            caught = e
+        mods = {}
     else:
         ga = store.run_module(path_a, src.text())
         mods = {path_a: ga}
@@ -379,7 +397,7 @@ def _run(sc, res, log, store, r):
         res.probe("markup_in_message")
 
     # ---- inject the source fault (after the failure, before rendering) ------------------------
-    if fault not in (None, "exec"):
+    if fault not in (None, "exec", "exec_linecache"):
         nl = len(src.lines)
         if fault == "truncate_before":
             f = ("truncate", max(0, lineno - 2))
@@ -499,6 +517,10 @@ def _run(sc, res, log, store, r):
     # ---- fault-free class: the snippet ----------------------------------------------------------
     if fault is None:
         _check_snippet(sc, res, text, src, lineno, fail_path)
+    elif fault == "exec_linecache" and _has_snippet(text, lineno):
+        # no file to read: nothing says a snippet must be shown - but one that is shown must be true
+        res.probe("snippet_without_a_file")
+        _check_snippet(sc, res, text, src, lineno, fail_path)
     # ---- frame listing and the ignore filter ---------------------------------------------------
     if fault in (None,) and sc["verbosity"] >= 1:
         _check_listing(sc, res, text, ignore_kind, nframes)
@@ -541,6 +563,24 @@ def _run(sc, res, log, store, r):
 
 
 _SNIP = re.compile(r"^\s*(?P<mark>[→>])?\s*(?P<no>\d+)(?P<delim>[│|]) ?(?P<code>.*)$")
+
+
+def _has_snippet(text, lineno):
+    lines = text.split("\n")
+    hdr = None
+    for i, l in enumerate(lines):
+        if re.match(r"^\s*at .*:%d in " % lineno, l):
+            hdr = i
+    if hdr is None:
+        return False
+    # (for a frame without source the unchanged report prints one empty numbered line: no code shown)
+    for l in lines[hdr + 1:]:
+        m = _SNIP.match(l)
+        if m and m.group("code").strip():
+            return True
+        if not m and l.strip():
+            return False
+    return False
 
 
 def _check_snippet(sc, res, text, src, lineno, fail_path):
